@@ -727,10 +727,37 @@ func (root *Root) resolveInline(
 	result map[string]interface{},
 	depth int) (ea []error) {
 
-	if sel.Condition == nil || sel.Condition == t {
+	if fragApplies(sel.Condition, t) {
 		ea = root.resolveSels(obj, vars, sel.Sels, t, result, depth)
 	}
 	return
+}
+
+// fragApplies returns true if a fragment with type condition cond applies to
+// a value being resolved as type t, that is if there is no condition, the
+// condition is the type itself, an interface the object type implements, or
+// a union the object type is a member of.
+func fragApplies(cond Type, t Type) bool {
+	if cond == nil || cond == t {
+		return true
+	}
+	if ot, _ := t.(*Object); ot != nil {
+		switch ct := cond.(type) {
+		case *Interface:
+			for _, it := range ot.Interfaces {
+				if it == cond {
+					return true
+				}
+			}
+		case *Union:
+			for _, m := range ct.Members {
+				if m == t {
+					return true
+				}
+			}
+		}
+	}
+	return false
 }
 
 func (root *Root) resolveFragRef(
@@ -744,7 +771,7 @@ func (root *Root) resolveFragRef(
 	if depth <= 0 {
 		return []error{resWarn(sel.Line(), sel.Column(), "fragment %s nested too deeply", sel.Fragment.Name)}
 	}
-	if sel.Fragment.Condition == nil || sel.Fragment.Condition == t {
+	if fragApplies(sel.Fragment.Condition, t) {
 		ea = root.resolveSels(obj, vars, sel.Fragment.Sels, t, result, depth-1)
 		if 0 < len(ea) {
 			Errors(ea).in(fmt.Sprintf("fragment at %d:%d", sel.Line(), sel.Column()))
